@@ -359,6 +359,15 @@ class Exec:
         v = freeze(v)
         if isinstance(v, VComp):
             return v.alts
+        if isinstance(v, VSet) and v.kind == "upairs":
+            # a set of unordered pairs: one element per pair, as a frozenset {x, y}
+            x, y = L.node("it"), L.node("it")
+            pr = v.pred
+            ori = self.lib.param_pred(self, "pairori", 2, [
+                lambda o: L.forall(2, lambda a, b: L.Implies(o(a, b), pr(a, b))),
+                lambda o: L.forall(2, lambda a, b: L.Implies(pr(a, b), L.Or(o(a, b), o(b, a)))),
+                lambda o: L.forall(2, lambda a, b: L.Implies(L.And(o(a, b), o(b, a)), a == b))])
+            return [([x, y], ori(x, y), self.lib.VUPair(x, y))]
         if isinstance(v, VSet):
             if getattr(v, "known_empty", False) and not v.tracked:
                 return []
@@ -1229,6 +1238,10 @@ class Exec:
             self.frames[-1].env = outer_env
         c = VComp(None, None, None, kind=kind)
         c.alts = results
+        if results and all(type(e).__name__ == "VUPair" for _, _, e in results):
+            def upred(x, y, results=results):
+                return L.Or(*[L.exists_c(cs, L.And(g, L.Or(L.And(x == e.a, y == e.b), L.And(x == e.b, y == e.a)))) for cs, g, e in results])
+            return VSet(upred, arity=2, kind="upairs", owned=True)
         if kind in ("set", "list") and results:
             # eager comprehensions of nodes / node tuples are materialised (they can be mutated afterwards)
             if all(isinstance(e, VNode) or (isinstance(e, VTuple) and e.items and all(isinstance(i, VNode) for i in e.items))
@@ -1238,6 +1251,11 @@ class Exec:
                     return VSet(m.pred, arity=m.arity, kind=kind, owned=True)
                 except OutOfSubset:
                     return c
+            if kind in ("set", "gen") and all(type(e).__name__ == "VUPair" for _, _, e in results):
+                def upred(x, y, results=results):
+                    return L.Or(*[L.exists_c(cs, L.And(g, L.Or(L.And(x == e.a, y == e.b), L.And(x == e.b, y == e.a)))) for cs, g, e in results])
+                r_ = VSet(upred, arity=2, kind="upairs", owned=True)
+                return r_
             if kind == "set" and all(isinstance(e, VSet) and e.arity == 1 for _, _, e in results):
                 fam = self.lib.as_family(self, c)
                 if fam is not None:
